@@ -178,10 +178,12 @@ M('M09.8', 'C09', 'atomman/unitconvert.py', "            value = [terms[c-1] ** 
 M('M09.9', 'C09', 'atomman/unitconvert.py', "            elif units[i] in ' \\n\\r\\t':\n                i += 1", "            elif units[i] in ' \\n\\r':\n                i += 1",
   'tab no longer accepted as blank')
 M('M09.10', 'C09', 'atomman/unitconvert.py', "    if (len(kwargs) == 0):\n        \n        nu.reset_units(seed)\n        build_unit()",
-  "    if (len(kwargs) == 0):\n        \n        nu.reset_units(seed)\n        if seed is not None:\n            build_unit()", 'unseeded random reset leaves the old dictionary')
+  "    if (len(kwargs) == 0):\n        \n        nu.reset_units(seed)\n        if seed is not None or 'unit' not in globals():\n            build_unit()", 'unseeded random reset leaves the old dictionary')
 M('M09.11', 'C09', 'atomman/lammps/style.py', "        params['velocity'] =            '2*Ry*aBohr/hbar'", "        params['velocity'] =            '2*Ry/aBohr/hbar'",
   'electron velocity entry dimension')
 M('M09.12', 'C09', 'atomman/unitconvert.py', "                nu.s = (nu.kg * nu.m**2 / J)**0.5", "                nu.s = (nu.kg * nu.m**2 / J)", 'time derived without root')
+M('M09.13', 'C09', 'atomman/unitconvert.py', "        for name in kwargs.values():\n            unit[name]\n", "        pass\n",
+  'revert bf88cda: an unknown unit name is found only after the working units were reset to SI')
 
 # ---- C10 -------------------------------------------------------------------
 M('M10.1', 'C10', 'atomman/unitconvert.py', "        datamodel['shape'] = list(shape)", "        datamodel['shape'] = list(shape)[::-1]",
